@@ -348,3 +348,15 @@ pub fn db() -> &'static Database {
     static DB: std::sync::OnceLock<Database> = std::sync::OnceLock::new();
     DB.get_or_init(|| Database::load_default().expect("bundled database loads"))
 }
+pub fn uni_pcap(frames: &[Vec<u8>], filter: Option<huginn_net_tcp::FilterConfig>, cap: usize) -> Result<Vec<UniRes>, String> {
+    let p = scratch_pcap(frames);
+    let (tx, rx) = std::sync::mpsc::channel();
+    let mut a = huginn_net::HuginnNet::new(Some(db()), cap, None).map_err(|e| e.to_string())?;
+    if let Some(f) = filter {
+        a = a.with_filter(f);
+    }
+    let r = a.analyze_pcap(p.to_str().unwrap_or(""), tx, None).map_err(|e| e.to_string());
+    let _ = std::fs::remove_file(&p);
+    r?;
+    Ok(rx.try_iter().map(|o| uni_res(&o)).collect())
+}
